@@ -335,8 +335,16 @@ impl<'tcx> Cx<'tcx> {
         }
         let idargs: Vec<String> = ty::GenericArgs::identity_for_item(tcx, did).iter().map(|g| self.garg(g)).collect();
         let ubs: Vec<String> = ub.spans.iter().map(|(sp, user)| format!("{{\"span\":{},\"user\":{}}}", self.span(*sp), user)).collect();
-        let _ = write!(out, "{{\"def\":{},\"kind\":{},\"impl\":{},\"in_trait\":{},\"root\":{},\"vis\":{},\"unsafe_fn\":{},\"preds\":[{}],\"generics\":[{}],\"unsafe_blocks\":[{}],\"span\":{},\"arg_count\":{},\"locals\":[{}],\"blocks\":[{}]}}",
-            esc(&tcx.def_path_str(did)), esc(&format!("{:?}", tcx.def_kind(did))), impl_info, in_trait, esc(&tcx.def_path_str(root)), vis, self.is_unsafe_fn(did), preds.join(","), idargs.join(","), ubs.join(","),
+        // signature with regions (MIR types are region-erased): own lifetime parameters, inputs and output as printed types
+        let sig = if is_fn {
+            let fs = tcx.fn_sig(did).instantiate_identity().skip_norm_wip().skip_binder();
+            let lts: Vec<String> = tcx.generics_of(did).own_params.iter()
+                .filter(|p| matches!(p.kind, ty::GenericParamDefKind::Lifetime)).map(|p| esc(&p.name.to_string())).collect();
+            let ins: Vec<String> = fs.inputs().iter().map(|t| esc(&format!("{:?}", t))).collect();
+            format!("{{\"lifetimes\":[{}],\"inputs\":[{}],\"output\":{}}}", lts.join(","), ins.join(","), esc(&format!("{:?}", fs.output())))
+        } else { "null".to_string() };
+        let _ = write!(out, "{{\"def\":{},\"kind\":{},\"impl\":{},\"in_trait\":{},\"root\":{},\"vis\":{},\"unsafe_fn\":{},\"sig\":{},\"preds\":[{}],\"generics\":[{}],\"unsafe_blocks\":[{}],\"span\":{},\"arg_count\":{},\"locals\":[{}],\"blocks\":[{}]}}",
+            esc(&tcx.def_path_str(did)), esc(&format!("{:?}", tcx.def_kind(did))), impl_info, in_trait, esc(&tcx.def_path_str(root)), vis, self.is_unsafe_fn(did), sig, preds.join(","), idargs.join(","), ubs.join(","),
             self.span(tcx.def_span(did)), body.arg_count, locals.join(","), blocks.join(","));
     }
 
